@@ -159,7 +159,16 @@ pub fn mlpg_reference(windows: &[Vec<f64>], frames: &[(bool, Vec<(f64, f64)>)]) 
 pub struct MlpgDense;
 
 fn window_sets(t: &mut Tape) -> (String, Vec<Vec<f64>>) {
-    match t.weighted(&[4, 6, 10, 4, 4, 2, 3, 2, 1, 1]) {
+    match t.weighted(&[4, 6, 10, 4, 4, 2, 3, 2, 1, 1, 2]) {
+        // even widths (HTS convention: the extra tap lies on the LEFT of the centre - a 2-tap window
+        // covers t-1 and t, a 4-tap window t-2 .. t+1)
+        10 => {
+            if t.chance(0.5) {
+                ("even-width-2".into(), vec![WIN_STATIC.to_vec(), vec![-1.0, 1.0]])
+            } else {
+                ("even-width-2+4".into(), vec![WIN_STATIC.to_vec(), vec![-1.0, 1.0], vec![0.25, -0.25, -0.25, 0.25]])
+            }
+        }
         0 => ("static".into(), vec![WIN_STATIC.to_vec()]),
         1 => ("delta".into(), vec![WIN_STATIC.to_vec(), WIN_D3.to_vec()]),
         2 => ("delta+accel".into(), vec![WIN_STATIC.to_vec(), WIN_D3.to_vec(), WIN_A3.to_vec()]),
@@ -182,7 +191,7 @@ impl Prop for MlpgDense {
         "mlpg-dense".into()
     }
     fn rule(&self) -> String {
-        "public MlpgAdjust::new(.., ModelStream{gv: None}).create(durations): 1..60 states, durations 1..8, vector length 1..4, means in [-3,3], variances in [0.05,3], window sets {static; +delta; +delta+accel (width 3); width-5; mixed 3/5; mixed 5/3 (widest window not last); windows with exact zeros at their outer positions (declared width 5 with support 3, one-sided differences in 3 taps)}, exact +-0.0 among the means (a third of the cases); tied variances (components sharing the static variance while the dynamic ones differ, or one variance per state) in a third of the cases; in 30 % of the cases the same MlpgAdjust object first serves 1-2 other alignments of the same states (same total, reordered or shifted; or unrelated), voicing {non-MSD all voiced | random | all unvoiced | islands of 1-2 frames | voiced with short gaps}; compared with the dense solve. Non-trivial: >= 1 dynamic window and >= 2 voiced frames".into()
+        "public MlpgAdjust::new(.., ModelStream{gv: None}).create(durations): 1..60 states, durations 1..8, vector length 1..4, means in [-3,3], variances in [0.05,3], window sets {static; +delta; +delta+accel (width 3); width-5; mixed 3/5; mixed 5/3 (widest window not last); windows with exact zeros at their outer positions (declared width 5 with support 3, one-sided differences in 3 taps)}, exact +-0.0 among the means (a third of the cases); tied variances (components sharing the static variance while the dynamic ones differ, or one variance per state) in a third of the cases; in 30 % of the cases the same MlpgAdjust object first serves 1-2 other alignments of the same states (same total, reordered or shifted; or unrelated), voicing {non-MSD all voiced | random | all unvoiced | islands of 1-2 frames | voiced with short gaps}; compared with the dense solve; every third case hands the window set over through its serde implementations (JSON). Non-trivial: >= 1 dynamic window and >= 2 voiced frames".into()
     }
     fn tape_len(&self, _: Tier) -> usize {
         60 * (4 * 3 * 2 * 4 + 3) + 32
@@ -329,6 +338,21 @@ impl Prop for MlpgDense {
         let nw = c.windows.len();
         let vl = c.vector_length;
         let windows = Windows::new(c.windows.iter().map(|w| Window::new(w.clone())).collect());
+        // every third case the window set reaches the generator the way a cached voice does: through
+        // its Serialize / Deserialize implementations (JSON text here) - the same windows by value
+        let via_serde = c.durations.len() % 3 == 1;
+        let windows: Windows = if via_serde {
+            let text = match serde_json::to_string(&windows) {
+                Ok(t) => t,
+                Err(e) => fail!("window-serde", "a window set cannot be serialized: {}", e),
+            };
+            match serde_json::from_str(&text) {
+                Ok(w) => w,
+                Err(e) => fail!("window-serde", "a serialized window set cannot be read back: {} ({})", e, text),
+            }
+        } else {
+            windows
+        };
         let stream = StreamParameter::new(
             c.states
                 .iter()
@@ -387,6 +411,7 @@ impl Prop for MlpgDense {
         rep.class(format!("voicing:{}", c.voicing));
         rep.class_if(!c.earlier_durations.is_empty(), "after-other-alignments-on-the-same-object");
         rep.class_if(nvoiced == 0, "no-voiced-frame");
+        rep.class_if(via_serde, "windows-through-serde");
         rep.class_if(worst > 1e-12, "err>1e-12");
         Ok(rep)
     }
